@@ -82,7 +82,8 @@ def spawn_workers(prop, tier, seed, nw, timeout, replay=None, pyflags=(), env_ex
             continue
         if 'harness_error' in r:
             problems.append('worker %d harness error: %s' % (wi, r['harness_error'][-1500:]))
-            continue
+            if not r.get('violations'):
+                continue
         results.append(r)
     # scratch cleanup
     for f in os.listdir(tmpdir):
